@@ -37,12 +37,14 @@ pub struct Cfg {
     pub replay: Option<(u32, u64)>,
     /// "checked" (overflow checks on) or "plain"
     pub flavour: String,
+    /// divides every random budget (used by the slow auxiliary flavours: Miri, ASan, valgrind)
+    pub budget_div: u64,
 }
 
 impl Cfg {
     /// n random cases for this shard given a quick-tier total of `quick_total` over all shards.
     pub fn budget(&self, quick_total: u64) -> u64 {
-        (quick_total * self.scale) / NSHARDS as u64
+        ((quick_total * self.scale) / NSHARDS as u64 / self.budget_div.max(1)).max(1)
     }
 }
 
